@@ -520,7 +520,7 @@ func (o *Obligation) Render(_ string) string {
 	}
 	full := gh.String() + body.String()
 	var b strings.Builder
-	b.WriteString(fx.reg.PreambleFor(full))
+	b.WriteString(fx.reg.PreambleFor(full, fx.axiomPkgOK()))
 	for _, d := range fx.decls {
 		if syms[declName(d)] {
 			b.WriteString(d + "\n")
@@ -545,6 +545,22 @@ func sortedKeys(m map[string]bool) []string {
 func (fx *FuncExec) modTerms(c *Contract, mk func() *SpecEnv) map[string][]string {
 	out := map[string][]string{}
 	for _, m := range c.Modifies {
+		if call, ok := m.Expr.(*ast.CallExpr); ok {
+			if id, ok := call.Fun.(*ast.Ident); ok && id.Name == "forall" && len(call.Args) == 3 {
+				// set comprehension: every x of type T satisfying cond (evaluated in the pre-state)
+				env := mk()
+				xid, ok := call.Args[0].(*ast.Ident)
+				if !ok {
+					panic(specError{"modifies forall(x, T, cond): x must be an identifier"})
+				}
+				srt, t := fx.typeFromString(exprString(call.Args[1]), env.pkgOrDefault())
+				sub := env.child()
+				sub.bound[xid.Name] = Term{S: "%R%", Sort: srt, T: t}
+				cond := sub.Bool(call.Args[2])
+				out[srt] = append(out[srt], "?pred:"+cond)
+				continue
+			}
+		}
 		t := mk().tr(m.Expr)
 		switch {
 		case t.Sort == "Slice":
@@ -560,9 +576,25 @@ func (fx *FuncExec) modTerms(c *Contract, mk func() *SpecEnv) map[string][]strin
 func notInSet(r string, set []string) string {
 	var ds []string
 	for _, m := range set {
+		if strings.HasPrefix(m, "?pred:") {
+			ds = append(ds, not(strings.ReplaceAll(strings.TrimPrefix(m, "?pred:"), "%R%", r)))
+			continue
+		}
 		ds = append(ds, not(eq(r, m)))
 	}
 	return and(ds...)
+}
+
+func inSetTerms(r string, set []string) []string {
+	var ins []string
+	for _, m := range set {
+		if strings.HasPrefix(m, "?pred:") {
+			ins = append(ins, strings.ReplaceAll(strings.TrimPrefix(m, "?pred:"), "%R%", r))
+			continue
+		}
+		ins = append(ins, eq(r, m))
+	}
+	return ins
 }
 
 // frameFacts: after a call whose callee has a modifies clause, every object
@@ -605,10 +637,7 @@ func (fx *FuncExec) frameWrite(st *State, comp, ref string, pos token.Pos) {
 	if entryAl == "" {
 		entryAl = fx.h0(al)
 	}
-	var ins []string
-	for _, m := range fx.modSet[ks] {
-		ins = append(ins, eq(ref, m))
-	}
+	ins := inSetTerms(ref, fx.modSet[ks])
 	goal := imp(sel(entryAl, ref), or(ins...))
 	fx.oblige(st, "frame-write", "", goal, "write to "+comp+" targets a fresh object or one in the modifies clause", pos)
 }
@@ -623,4 +652,30 @@ func (fx *FuncExec) isStructValuedComp(comp string) bool {
 		}
 	}
 	return false
+}
+
+// axiomPkgOK: spec axioms of package p are usable for this function's
+// obligations if p is the function's package or one it (transitively) imports.
+func (fx *FuncExec) axiomPkgOK() func(string) bool {
+	own := fx.pkg.PkgPath
+	return func(p string) bool {
+		if p == own {
+			return true
+		}
+		seen := map[string]bool{}
+		var dep func(q *packages.Package) bool
+		dep = func(q *packages.Package) bool {
+			if seen[q.PkgPath] {
+				return false
+			}
+			seen[q.PkgPath] = true
+			for path, imp := range q.Imports {
+				if path == p || dep(imp) {
+					return true
+				}
+			}
+			return false
+		}
+		return dep(fx.pkg)
+	}
 }
